@@ -48,7 +48,7 @@ def k_escape_attr(c0: int, s: str) -> bool:
     return html_escape(s, attr=True) == ref_escape_attr(s)
 
 
-N_SUPPLY = 13
+N_SUPPLY = 16
 
 
 def _v(kind: int, x: str):
@@ -93,8 +93,17 @@ def supply(how: int, ka: int, kb: int, a: str, b: str):
         t = Tag("i", {"title": A})
         t.attrs.update(title=Bv)   # a later update replaces
         return t, eb, "title"
-    t = Tag("i", {"data_x": A}, data_x=Bv)
-    return t, ea + " " + eb, "data-x"
+    if how == 12:
+        t = Tag("i", {"data_x": A}, data_x=Bv)
+        return t, ea + " " + eb, "data-x"
+    if how == 13:
+        # one mapping holding two spellings of the same attribute name
+        return Tag("i", {"data_x": A, "data-x": Bv}), ea + " " + eb, "data-x"
+    if how == 14:
+        return Tag("i", **{"class_": A, "class": Bv}), ea + " " + eb, "class"
+    t = Tag("i")
+    t.attrs.update({"title_": A, "title": Bv})
+    return t, ea + " " + eb, "title"
 
 
 _SINGLE = (0, 1, 5, 10)   # paths that use operand a only: cheaper, so a longer bound (L1)
@@ -114,7 +123,7 @@ def _pre_supply(B, how, ka, kb, a, b):
          shard=lambda B: [{"how": h, "ka": ka, "kb": kb} for h in range(N_SUPPLY) for ka in range(2) for kb in range(2)
                           if not (h in _SINGLE and kb == 1)],
          sym=["a, b: str over all code points, len <= L (len(a) <= L1 on the single-operand paths)"],
-         sel=["how: 13 ways of supplying/merging a value", "ka, kb: plain or HTML() per operand"],
+         sel=["how: 16 ways of supplying/merging a value (incl. one mapping with two spellings of a name)", "ka, kb: plain or HTML() per operand"],
          targets=["htmltools._core.TagAttrDict.update", "htmltools._core.Tag.get_html_string", "htmltools._core.Tag.add_class",
                   "htmltools._core.Tag.add_style", "htmltools._core.TagAttrDict.__setitem__"],
          timeout={"quick": 150, "thorough": 1200})
